@@ -13,6 +13,8 @@ ASSUMPTIONS = ['render-time options (escape flags, max_line_length, normalize_wh
                'RecursionError is admissible only if the input holds more than 100 ASCII punctuation/digit characters '
                '(every nesting construct costs at least one per level)']
 
+# strings with a meaning for str.format / % / templates / escapes, placed in every pair of syntactic roles
+ROLE_STRINGS = ['{', '}', '{0}', '{}', '%s', '%', '{inner}', '{target}', '\\', '$', '"', "'", '<', '&', ']', ')', '`', '|']
 PUNCT_DIGIT = set(string.punctuation + string.digits)
 
 TIERS = {
@@ -32,7 +34,7 @@ def describe(tier):
     return dict(word_depth=t['words'], full_config_depth=FULL_DEPTH[tier], alphabets=spaces.ALPHABETS,
                 line_alphabet=spaces.LINES + spaces.LINES_C01_EXTRA, max_lines=t['lines'],
                 edit1=dict(tokens=t['edit'][0], max_example_length=t['edit'][1]),
-                generated_trees=dict(max_nodes=3 if tier == 'quick' else 4, spelling='canonical'), inline_menu='every container around 1-2 leaves in 5 block contexts',
+                generated_trees=dict(max_nodes=3 if tier == 'quick' else 4, spelling='canonical'), inline_menu='every container around 1-2 leaves in 5 block contexts', role_strings=ROLE_STRINGS,
                 pump=dict(max_w_tokens=t['pump'][0], repetitions=[32, 100, 'len~%d chars' % (t['pump'][1] * 4)]),
                 configurations=configs.n_configs(configs.GROUPS), core_configurations=configs.n_configs(configs.GROUPS_CORE),
                 timeout_s=10)
@@ -61,6 +63,8 @@ def jobs(tier):
             js.append(('trees', n, 2 if tier == 'quick' else 3, sh, ns))
     for ci in range(len(inlines.CONTAINERS)):
         js.append(('inlines', ci))
+    for i in range(len(ROLE_STRINGS)):
+        js.append(('roles', i))
     return js
 
 
@@ -220,6 +224,12 @@ def _run_job(r, job):
             md, rec = trees.to_markdown(blocks, trees.DEFAULTS)
             run_text(r, md, configs.GROUPS if n <= 3 else configs.GROUPS_CORE, space='trees')
         r.sample(dict(space='trees', nodes=n), 1)
+    elif kind == 'roles':
+        for key, text in spaces.role_documents([ROLE_STRINGS[job[1]]]):
+            run_text(r, text, configs.GROUPS_CORE, space='roles')
+        for (na, a) in spaces.ROLE_CONTEXTS:
+            run_text(r, a.replace('{c}', ROLE_STRINGS[job[1]]) + '\n', configs.GROUPS, space='roles')
+        r.sample(dict(space='roles', string=ROLE_STRINGS[job[1]]), 1)
     elif kind == 'inlines':
         for node, key in inlines.enumerate_family('depth1-single', job[1]):
             for cx in range(len(inlines.CONTEXT_NAMES)):
